@@ -22,7 +22,7 @@ ASSUMPTIONS = [
 ]
 MANIFEST = {'text': 'proof (all normal paths of the stage) of the publication typestate: no message is handed to the outflow while the lifecycle table has unpublished updates, '
                     'and after a lifecycle is confirmed (removed from the buffered set outside a merge) no message is handed over before update+refresh.'
-                    ' Added: a message leaves the queue only when its lifecycle is known not to be buffered (hence published), and after a merge no queued message keeps the merged id; the end-of-input publication loop covers every still buffered lifecycle. Added: every message passes Lifecycle::new/update, which store an id on every return path, before it is sent or queued. Added: the table entry written right after an un-buffering is that of the un-buffered lifecycle (same lc, or found by a search for the removed id). Added: P7 (shared with C07) - a published lifecycle is emptied from the table by a merge only when none of its messages was delivered; bulk removals from the queue inside the receive loop (drain / clear) only under buffered_lcs.is_empty().'}
+                    ' Added: a message leaves the queue only when its lifecycle is known not to be buffered (hence published), and after a merge no queued message keeps the merged id; the end-of-input publication loop covers every still buffered lifecycle. Added: every message passes Lifecycle::new/update, which store an id on every return path, before it is sent or queued. Added: the table entry written right after an un-buffering is that of the un-buffered lifecycle (same lc, or found by a search for the removed id). Added: P7 (shared with C07) - a published lifecycle is emptied from the table by a merge only when none of its messages was delivered; bulk removals from the queue inside the receive loop (drain / clear) only under buffered_lcs.is_empty(). Added: A3 (shared with C05) - a lifecycle leaves the per-ECU working list only by a merge.'}
 
 
 def run(F, chk):
@@ -39,6 +39,7 @@ def run(F, chk):
     Q5 = chk.rule('Q5', 'inside the receive loop a message leaves the queue only when its lifecycle is known not to be buffered (so it has been published)')
     P3 = chk.rule('P3', 'after every merge the whole queue and the current message are relabelled (no delivered message carries the id of an unpublished, merged lifecycle)')
     P7 = chk.rule('P7', 'a possibly confirmed lifecycle is merged away (and emptied from the table) only when all of its messages are still queued: no delivered message is left with an id that was removed from the table (shared with C07)')
+    A3 = chk.rule('A3', 'a lifecycle leaves the per-ECU working list only on a path that merged it away in this pass: every publication looks lifecycles up in that list, so one dropped from it while unconfirmed is never published although its messages are delivered (shared with C05)')
     T5 = chk.rule('T5', 'every lifecycle created in the stage is inserted into buffered_lcs or published before the message that created it is queued or delivered')
     A1 = chk.rule('A1', 'every message passes Lifecycle::new/update before it is sent or queued, and both store an id into `lifecycle` on every return path (no message leaves with an id that was never published)')
     for b in stages:
@@ -47,6 +48,7 @@ def run(F, chk):
         c07.check_relabel(F, st0, P3)
         check_new_lifecycle_registered(st0, T5)
         c07.check_merge_needs_all_queued(st0, P7)
+        c05.check_lifecycle_removal(F, st0, A3)
         c05.check_assigned(F, st0, A1)
     T6 = chk.rule('T6', 'the lifecycle written to the table right after an un-buffering is the lifecycle whose id was un-buffered (same `lc` for remove(&lc.id) and update(lc.id, item(lc)), or found by a search for that id)')
     for b in stages:
